@@ -98,6 +98,17 @@ func runC17(c *core.Case) {
 	if r.P(0.04) { // max < min is an error in both directions
 		id := genID(r, 1, 31, 0, 35)
 		zf, zb, zo := genZoom(r), genZoom(r), genZoom(r) // every output / bit zoom incl. 0 and 35
+		if r.P(0.4) { // inverted by the smallest possible amount: one ulp, or 1e-12 .. 1e-9 m
+			if r.Bool() {
+				max = math.Nextafter(min, math.Inf(1))
+			} else {
+				max = min + math.Pow(10, -r.Uniform(9, 12))
+				if !(max > min) {
+					max = math.Nextafter(min, math.Inf(1))
+				}
+			}
+			c.Tag("max<min-by-a-hair")
+		}
 		res, e1 := transform.ConvertExtendedSpatialIDsToQuadkeysAndVerticalIDs([]string{id.Ext()}, id.H, zf, min, max)
 		back, e2 := transform.ConvertQuadkeysAndVerticalIDsToExtendedSpatialIDs([]*object.QuadkeyAndVerticalID{object.NewQuadkeyAndVerticalID(6, 2914, zb, 0, min, max)}, 6, zo)
 		if e1 == nil && id.H == id.V { // spatial entry point of the same conversion
